@@ -297,8 +297,13 @@ class Conservation:
                 p.trace.append(f"L{st.lineno}:{src(st)}")
                 return
             if self._queue_item(tg):
-                # self.Q[k] = v : replaces whatever was stored under k -- only exact when k was just popped; not modelled
-                raise AnalysisError(f"line {st.lineno}: `{src(st)}` overwrites a queue entry (unknown idiom)", "conserve")
+                # self.Q[k] = v replaces whatever is stored under k at that moment.  Another thread may have appended to that entry since this
+                # method popped it (the hand-off happens outside the lock), so the number of items dropped is not determined by this method.
+                d = self.size_of(v, p)
+                p.dq = None
+                p.back = f_add(p.back, d)
+                p.trace.append(f"L{st.lineno}:{src(st)} [overwrites the entry: items stored under the key since the pop are dropped]")
+                return
             if src(tg) == self.Q:
                 raise AnalysisError(f"line {st.lineno}: `{src(st)}` replaces the whole queue (unknown idiom)", "conserve")
             return
